@@ -136,9 +136,7 @@ func c02Sig(over, under int64) string {
 	switch {
 	case under > 0:
 		return "required-count-under"
-	case over > 0:
-		return "required-count-float-ceil"
 	default:
-		return "required-count-float-ceil"
+		return "required-count-over"
 	}
 }
